@@ -76,6 +76,10 @@ func gen(t *rapid.T) Case {
 			op.I = rapid.SampledFrom([]int64{0, 1, -1, 3, 4, 9, 10, int64(time.Millisecond), int64(time.Second), int64(time.Second) + 1, -int64(time.Second), math.MaxInt64, math.MinInt64}).Draw(t, "d")
 		case "mutate":
 			op.Which = rapid.IntRange(0, 3).Draw(t, "which")
+		case "snap":
+			// Which == 1: the snapshot is taken now but READ only at the end of the history, after
+			// more recording: it must still show the state at the time it was taken
+			op.Which = rapid.IntRange(0, 1).Draw(t, "readLater")
 		}
 		c.Ops = append(c.Ops, op)
 	}
@@ -245,6 +249,7 @@ func run(c Case) (pbt.Outcome, error) {
 		view []string
 	}
 	var snaps []held
+	readLater := false
 	get := func(ms *mscope, kind, name string) *entry {
 		if ms.inert {
 			return nil
@@ -335,6 +340,13 @@ func run(c Case) (pbt.Outcome, error) {
 			recordedAfterSnap = len(snaps) > 0
 		case "snap":
 			s := ts.Snapshot()
+			if op.Which == 1 {
+				if len(snaps) < 4 {
+					snaps = append(snaps, held{s, w.view()}) // not read yet: compared with the model of this moment at the end
+					readLater = true
+				}
+				continue
+			}
 			v := view(s)
 			if mv := w.view(); !equalViews(v, mv) {
 				errs.Addf("op %d: snapshot differs from what was recorded:%s", oi, diff(v, mv))
@@ -408,12 +420,15 @@ func run(c Case) (pbt.Outcome, error) {
 	}
 	for i, h := range snaps {
 		if v := view(h.snap); !equalViews(v, h.view) {
-			errs.Addf("held snapshot %d changed after further recording:%s", i, diff(v, h.view))
+			errs.Addf("held snapshot %d, read after further recording, differs from the state at the time it was taken (or from its own earlier reading):%s", i, diff(v, h.view))
 		}
 	}
 	tagsets := map[string]bool{}
 	for _, e := range w.entries {
 		tagsets[rec.TagKey(e.tags)] = true
+	}
+	if readLater {
+		out.Classes = append(out.Classes, "snapshot-read-later")
 	}
 	out.NonTrivial = len(tagsets) >= 2 && recordedAfterSnap
 	closedAny := false
@@ -434,7 +449,7 @@ func run(c Case) (pbt.Outcome, error) {
 func TestC11(t *testing.T) {
 	pbt.Main(t, pbt.Prop[Case]{
 		ID: "C11", Name: "snapshot",
-		Rule: "rapid-generated histories (1..30 ops) on a test scope (shard count 1/2/16): derive up to 6 scopes by SubScope/Tagged over a delimiter-free alphabet, record on counters (int64 extremes), gauges (hostile float bits), timers, value and duration histograms (fixed specs incl. unsorted, empty and groups of different specs that collide in the internal bucket cache, also across kinds), take snapshots at arbitrary points, mutate a held snapshot through its accessors (tags, timer slices, histogram maps, deleting entries), close subscopes and keep recording on them. Oracle: every snapshot read through Name()/Tags()/Value*() equals the reference tally as a set of entries, and every entry is filed under KeyForPrefixedStringMap(its full name, its tags) (metric names include the empty name); a held snapshot re-read after further recording equals its own earlier view; mutation of a snapshot never shows in a later one; closed test scopes stay visible; children of closed scopes are inert. Non-trivial: >=2 scopes with different tag sets and recording after a snapshot. Distinct: FNV-64 of the case JSON.",
+		Rule: "rapid-generated histories (1..30 ops) on a test scope (shard count 1/2/16): derive up to 6 scopes by SubScope/Tagged over a delimiter-free alphabet, record on counters (int64 extremes), gauges (hostile float bits), timers, value and duration histograms (fixed specs incl. unsorted, empty and groups of different specs that collide in the internal bucket cache, also across kinds), take snapshots at arbitrary points, mutate a held snapshot through its accessors (tags, timer slices, histogram maps, deleting entries), close subscopes and keep recording on them. Oracle: every snapshot read through Name()/Tags()/Value*() equals the reference tally as a set of entries, and every entry is filed under KeyForPrefixedStringMap(its full name, its tags) (metric names include the empty name); a held snapshot re-read after further recording equals its own earlier view, and a snapshot taken but first READ only after further recording shows the state at the time it was taken; mutation of a snapshot never shows in a later one; closed test scopes stay visible; children of closed scopes are inert. Non-trivial: >=2 scopes with different tag sets and recording after a snapshot. Distinct: FNV-64 of the case JSON.",
 		Gen:  gen, Run: run, HangAfter: 20 * time.Second,
 	})
 }
